@@ -69,6 +69,18 @@ def corr(ctx):
     for _ in range(2000 if ctx.thorough else 300):
         da, db = rng.randint(0, 200), rng.randint(0, 200)
         poly_pair(rng.getrandbits(da + 1), rng.getrandbits(db + 1))
+    # related operands: squares (equal values, and the very same object), shifts, complements, single terms, all-ones, sparse
+    for _ in range(400 if ctx.thorough else 80):
+        d = rng.choice([rng.randint(0, 15), rng.randint(16, 31), rng.randint(32, 70), rng.randint(60, 200)])
+        a = rng.getrandbits(d) | (1 << d)
+        sparse = (1 << d) | (1 << rng.randint(0, d)) | 1
+        for x, y in ((a, a), (sparse, sparse), (a, a << rng.randint(1, 40)), (a, a ^ 1), (a, 1 << rng.randint(0, 64)), ((1 << (d + 1)) - 1, (1 << (d + 1)) - 1),
+                     (a, (1 << (d + 1)) - 1), (sparse, a)):
+            poly_pair(x, y)
+        obj = BP(a)
+        add("pmul", (a, a), lambda: (obj * obj).value, "algebra:BinaryPolynomial.__mul__")
+        add("pgcd", (a, a), lambda: obj.gcd(obj).value, "algebra:BinaryPolynomial.gcd")
+        add("pmod", (a, a), lambda: (obj % obj).value, "algebra:BinaryPolynomial.__mod__")
     for a in list(range(64)) + [rng.getrandbits(rng.randint(1, 200)) for _ in range(100)]:
         add("pderiv", (a,), lambda: BP(a).derivative().value, "algebra:BinaryPolynomial.derivative")
         add("pdeg", (a,), lambda: BP(a).degree, "algebra:BinaryPolynomial.degree")
@@ -87,6 +99,9 @@ def corr(ctx):
             pairs = [(rng.randrange(size), rng.randrange(size)) for _ in range(400 if ctx.thorough else 120)]
         for a, b in pairs:
             add("fmul", (P, a, b), lambda: (F(a) * F(b)).value, "algebra:FiniteBifieldElement.__mul__")
+        for a in [rng.randrange(size) for _ in range(20)]:
+            el = F(a)
+            add("fmul", (P, a, a), lambda: (el * el).value, "algebra:FiniteBifieldElement.__mul__")
         elems = range(size) if m <= all_elems_upto else [rng.randrange(size) for _ in range(200 if ctx.thorough else 60)]
         for a in elems:
             add("finv", (P, m, a), lambda: F(a).inverse().value, "algebra:FiniteBifieldElement.inverse")
